@@ -69,6 +69,8 @@ CORPUS = [
     # an appending session at a filesystem offset of exactly one undo block: the reopened block map must be in device positions
     ({"B": 1024, "T": 1024, "off": 1024, "size": 9216, "seed": 131}, ["W 0 2 " + "92" * 2048, "REOPEN", "W 1 1 " + "70" * 1024]),
     ({"B": 1024, "T": 1024, "off": 1024, "size": 17408, "seed": 40}, ["Z 4 1", "W 0 3 " + "ab" * 3072, "REOPEN", "W 2 4 " + "cd" * 4096]),
+    # exactly one full key block (63 keys at 1k undo blocks) when the undo file is closed, then an appending session
+    ({"B": 1024, "T": 1024, "off": 0, "size": 140 * 1024, "seed": 5}, ["W %d 1 %s" % (2 * k, ("%02x" % (k + 1)) * 1024) for k in range(63)] + ["REOPEN", "W 127 1 " + "fe" * 1024, "W 129 1 " + "fd" * 1024]),
 ]
 
 
